@@ -27,12 +27,13 @@ VARIABLES nodes,   \* [known node id -> NodeRec]
           jobs,    \* pending jobs (threaded flavour): [k |-> "L", l |-> line] | [k |-> "E", m |-> cmd]
           metric,  \* TRUE = metric
           pers,    \* persistence enabled and started
+          dirty,   \* Persistence.need_save: set by alert(), cleared by a completed save
           disk,    \* what a load would restore: [file |-> BOOLEAN, nodes |-> persisted projection]
           issued,  \* history: every id ever carried by an id response (the nodes' memory)
           out,     \* commands handed to transport.send during this step, in order
           cb,      \* event callbacks made during this step
           exc      \* "none" | "refused": the controller call of this step raised to its caller
-vars == <<nodes, ota, jobs, metric, pers, disk, issued, out, cb, exc>>
+vars == <<nodes, ota, jobs, metric, pers, dirty, disk, issued, out, cb, exc>>
 
 NOID  == -1            \* "no type" (Python None) for integer attributes
 NULLV == "~NULL"       \* Python None for text attributes / confirmed desired values
@@ -262,13 +263,14 @@ RecvAsync(l, ch) ==
        /\ cb' = r.cbs
   /\ issued' = issued \cup NewIssued(l, ch)
   /\ exc' = "none"
+  /\ dirty' = (dirty \/ (pers /\ cb' # <<>>))       \* alert() marks the state unsaved
   /\ UNCHANGED <<jobs, metric, pers, disk>>
 
 RecvSync(l) ==
   /\ Flavour = "sync"
   /\ jobs' = Append(jobs, [k |-> "L", l |-> l])
   /\ out' = <<>> /\ cb' = <<>> /\ exc' = "none"
-  /\ UNCHANGED <<nodes, ota, metric, pers, disk, issued>>
+  /\ UNCHANGED <<nodes, ota, metric, pers, dirty, disk, issued>>
 
 Pump(ch) ==
   /\ Flavour = "sync" /\ jobs # <<>>
@@ -284,13 +286,14 @@ Pump(ch) ==
                /\ cb' = r.cbs
           /\ issued' = issued \cup NewIssued(j.l, ch)
   /\ exc' = "none"
+  /\ dirty' = (dirty \/ (pers /\ cb' # <<>>))
   /\ UNCHANGED <<metric, pers, disk>>
 
 \* set_child_value(n, c, t, v, ack=a); v is a payload descriptor, t an integer
 \* (given as int or as numeric string - both mean the same value type)
 CSetChild(n, c, t, v, a) ==
   /\ cb' = <<>>
-  /\ UNCHANGED <<ota, metric, pers, disk, issued>>
+  /\ UNCHANGED <<ota, metric, pers, dirty, disk, issued>>
   /\ IF ~IsKnown(nodes, n, c)
      THEN LET r == NeedKnown(nodes, n, c) IN
           /\ nodes' = r.nd /\ exc' = "none"
@@ -317,7 +320,7 @@ CSetChild(n, c, t, v, a) ==
 \* update_fw(nids, type, version, image?): f = <<type, version>>
 CUpdateFw(nids, f, withImage) ==
   /\ out' = <<>> /\ cb' = <<>> /\ exc' = "none"
-  /\ UNCHANGED <<jobs, metric, pers, disk, issued>>
+  /\ UNCHANGED <<jobs, metric, pers, dirty, disk, issued>>
   /\ LET fw2 == IF withImage THEN ota.fw \cup {f} ELSE ota.fw IN
      IF f \notin fw2
      THEN ota' = ota /\ nodes' = nodes
@@ -330,7 +333,7 @@ CUpdateFw(nids, f, withImage) ==
 CMetric(b) ==
   /\ metric' = b
   /\ out' = <<>> /\ cb' = <<>> /\ exc' = "none"
-  /\ UNCHANGED <<nodes, ota, jobs, pers, disk, issued>>
+  /\ UNCHANGED <<nodes, ota, jobs, pers, dirty, disk, issued>>
 
 \* start_persistence: load (adds what the file holds), then the first scheduled save
 Loaded(d) == d.nodes
@@ -339,20 +342,21 @@ StartPersist ==
   /\ pers' = TRUE
   /\ nodes' = [n \in DOMAIN nodes \cup DOMAIN Loaded(disk) |->
                  IF n \in DOMAIN Loaded(disk) THEN Loaded(disk)[n] ELSE nodes[n]]
-  /\ disk' = SavedNow(nodes')
+  /\ disk' = SavedNow(nodes') /\ dirty' = FALSE
   /\ out' = <<>> /\ cb' = <<>> /\ exc' = "none"
   /\ UNCHANGED <<ota, jobs, metric, issued>>
 
-\* a periodic save tick, and the final save of stop(): afterwards the disk holds the state
+\* a periodic save tick / the final save of stop(): save_sensors writes only when the state is
+\* marked unsaved.  That this loses nothing is the invariant CleanMeansSaved (C14).
 Tick ==
   /\ pers
-  /\ disk' = SavedNow(nodes)
+  /\ disk' = (IF dirty THEN SavedNow(nodes) ELSE disk) /\ dirty' = FALSE
   /\ out' = <<>> /\ cb' = <<>> /\ exc' = "none"
   /\ UNCHANGED <<nodes, ota, jobs, metric, pers, issued>>
 
 \* stop() followed by a new gateway object on the same file (not yet started)
 StopRestart ==
-  /\ disk' = IF pers THEN SavedNow(nodes) ELSE disk
+  /\ disk' = (IF pers /\ dirty THEN SavedNow(nodes) ELSE disk) /\ dirty' = FALSE
   /\ nodes' = EmptyFn
   /\ ota' = [fw |-> {}, sess |-> EmptyFn]
   /\ jobs' = <<>> /\ metric' = TRUE /\ pers' = FALSE
@@ -362,7 +366,7 @@ StopRestart ==
 Init ==
   /\ nodes = EmptyFn
   /\ ota = [fw |-> {}, sess |-> EmptyFn]
-  /\ jobs = <<>> /\ metric = TRUE /\ pers = FALSE /\ disk = NoFile /\ issued = {}
+  /\ jobs = <<>> /\ metric = TRUE /\ pers = FALSE /\ dirty = FALSE /\ disk = NoFile /\ issued = {}
   /\ out = <<>> /\ cb = <<>> /\ exc = "none"
 
 (***************************************************************************)
@@ -381,6 +385,8 @@ TreeDiscipline ==
      /\ DOMAIN nodes[n].desired \subseteq DOMAIN nodes[n].kids
      /\ (nodes[n].hold # <<>> => Sleeping(nodes, n))
      /\ \A i \in 1..Len(nodes[n].hold) : nodes[n].hold[i].n = n /\ nodes[n].hold[i].cmd # STREAM
+\* C14: whenever the state is not marked unsaved, the file already holds it
+CleanMeansSaved == pers /\ ~dirty => disk = SavedNow(nodes)
 OtaDiscipline ==
   /\ DOMAIN ota.sess \subseteq DOMAIN nodes
   /\ \A n \in DOMAIN ota.sess : ota.sess[n].fw \in ota.fw
